@@ -117,6 +117,9 @@ func runC02(c *eng.Ctx) {
 		c.Check(ok, "register-and-install-one-hold", st.Instr, av, "the version is registered as active and made current in one hold (a snapshot can not see a current version that is not active)", why)
 	})
 
+	// ---- 2b. a commit derives the new version from the version that is current INSIDE the commit's own hold -----------------
+	c.Rule("ATOMIC", vsT+".CommitFamilyEditLog{base read + install}", func() { commitBaseInHold(c) })
+
 	// ---- 3/4. snapshot takes its reference under the lock ---------------------------------------------------------
 	c.Rule("ATOMIC", fvT+".GetSnapshot{pick+retain}", func() {
 		f := c.Fn(fvT + ".GetSnapshot")
@@ -420,4 +423,30 @@ func snapshotTypestate(c *eng.Ctx) {
 	if n < 15 {
 		c.Check(false, "acquire@count", nil, nil, "at least 15 snapshot acquisition sites exist", fmt.Sprintf("found %d", n))
 	}
+}
+
+// commitBaseInHold (C01 + C02): the version a commit clones (its base) is read in the same write hold of the version-set mutex
+// that installs the result. If the base is read before the hold, two overlapping commits clone the same base, each installs
+// base+own edit, and the later install silently discards the earlier, already acknowledged commit.
+func commitBaseInHold(c *eng.Ctx) {
+	p := c.P
+	f := c.Fn(vsT + ".CommitFamilyEditLog")
+	ls := p.Locks(f, nil)
+	ins := c.One(f, invokeOn("", "appendVersion"), "familyVersion.appendVersion")
+	nv := eng.CallArgs(ins.Instr.(*ssa.Call))[0]
+	// every call the installed version derives from: Clone(), GetCurrent(), GetSnapshot()
+	n := 0
+	for _, name := range []string{"Clone", "GetCurrent", "GetSnapshot"} {
+		for i, s := range p.Sites(f, invokeOn("", name)) {
+			v, isV := s.Instr.(ssa.Value)
+			if !isV || !eng.DependsOn(nv, func(x ssa.Value) bool { return x == v }) {
+				continue
+			}
+			n++
+			ok, why := ls.SameHold(s.Instr, ins.Instr, vsMu, true)
+			c.Check(ok, fmt.Sprintf("base-read-in-install-hold:%s[%d]", name, i), s.Instr, f,
+				"the base version of a commit ("+name+") is read in the write hold that installs the new version (overlapping commits can not clone the same base)", why)
+		}
+	}
+	c.Check(n >= 3, "base-chain-found", ins.Instr, f, "the installed version derives from GetSnapshot().GetCurrent().Clone()", fmt.Sprintf("%d links found for %s", n, p.Desc(nv)))
 }
